@@ -695,8 +695,8 @@ class Resolver:
     def local(self, n, depth=0, seen=frozenset()):
         fn = self.fn
         if 1 <= n <= fn.argc:
-            # parameters may be re-assigned, but that is rare; treat as param when no defs
-            if not fn.defs().get(n):
+            # parameters may be re-assigned, but that is rare; treat as param when never assigned as a whole
+            if not fn.whole_defs(n):
                 return ("param", n)
         if depth > self.max_depth or n in seen:
             return ("local", n)
